@@ -480,7 +480,9 @@ func (fc *FuncCtx) applyContract(c *ast.CallExpr, st *State, ct *Contract, fn *t
 			continue
 		}
 		fc.oblige(st, "pre", calleeLabel+":"+lbl, c.Pos(), goal, r.Tags, r.Src)
-		st.assume(goal)
+		if !e.noAssume[fc.name+"/pre:"+calleeLabel+":"+lbl] {
+			st.assume(goal)
+		}
 	}
 	pre := st.clone()
 	// frame: what the callee may modify must be permitted to the caller too
@@ -502,6 +504,15 @@ func (fc *FuncCtx) applyContract(c *ast.CallExpr, st *State, ct *Contract, fn *t
 				}
 			}
 			e.heapHavocAll(st, t.key, t.sh)
+		case t.pred != nil:
+			// every object the callee may modify must be one the caller may modify
+			if fc.contract != nil && fc.contract.Trusted == "" && e.dry == 0 {
+				e.nfresh++
+				r := smtSym(fmt.Sprintf("r!b%d", e.nfresh))
+				goal := "(forall ((" + r + " Int)) (=> " + t.pred(r) + " " + fc.framePermits(st, t.key, r) + "))"
+				fc.oblige(st, "frame", calleeLabel+"|maps("+t.key+")", c.Pos(), goal, nil, "every map the callee may modify (its maps(...) clause) must be fresh or permitted by the caller's modifies clause")
+			}
+			e.heapHavocWhere(st, t.key, t.sh, t.pred)
 		default:
 			fc.frameCheckKey(st, t.key, t.ref, c)
 			e.heapHavocAt(st, t.key, t.sh, t.ref)
@@ -672,6 +683,8 @@ func (fc *FuncCtx) callFuncValue(c *ast.CallExpr, st *State, fv *types.Var, args
 			}
 		case t.all:
 			e.heapHavocAll(st, t.key, t.sh)
+		case t.pred != nil:
+			e.heapHavocWhere(st, t.key, t.sh, t.pred)
 		default:
 			e.heapHavocAt(st, t.key, t.sh, t.ref)
 		}
@@ -972,6 +985,8 @@ func (fc *FuncCtx) modifiedBy(st *State, run func(h *State) ([]*State, []*State)
 		for r := range m {
 			if r == "*" || r == "~fresh" || !mentionsFreshAfter(r, mark0) {
 				d2.heap[k][r] = true
+			} else if strings.HasPrefix(r, "?") {
+				d2.heap[k]["*"] = true
 			} else {
 				d2.heap[k]["~fresh"] = true
 			}
@@ -984,7 +999,11 @@ func (fc *FuncCtx) modifiedBy(st *State, run func(h *State) ([]*State, []*State)
 		for r := range m {
 			if r != "*" && r != "~fresh" && mentionsFreshAfter(r, mark) {
 				delete(m, r)
-				m["~fresh"] = true
+				if strings.HasPrefix(r, "?") {
+					m["*"] = true // a predicate target that is not loop-invariant: everything unknown
+				} else {
+					m["~fresh"] = true
+				}
 			}
 		}
 	}
@@ -1052,8 +1071,15 @@ func (fc *FuncCtx) havocDiff(h *State, d *stateDiff, whole bool) {
 			e.heapHavocAll(h, k, sh)
 			continue
 		}
-		if targets["~fresh"] {
-			// objects allocated before the loop (other than the stable targets) keep their contents
+		hasPred := false
+		for t := range targets {
+			if strings.HasPrefix(t, "?") {
+				hasPred = true
+			}
+		}
+		if targets["~fresh"] || hasPred {
+			// objects allocated before the loop (other than the stable targets and the objects inside a
+			// loop-invariant predicate target) keep their contents
 			oldArrs := e.heapLeaves(h, k, sh)
 			sorts := e.leafSorts(sh)
 			newArrs := make([]string, len(sorts))
@@ -1061,7 +1087,9 @@ func (fc *FuncCtx) havocDiff(h *State, d *stateDiff, whole bool) {
 			r := smtSym(fmt.Sprintf("r!b%d", e.nfresh))
 			guard := []string{"(< " + r + " " + allocBefore + ")"}
 			for _, t := range sortedStrings(targets) {
-				if t != "~fresh" {
+				if strings.HasPrefix(t, "?") {
+					guard = append(guard, not(strings.ReplaceAll(t[1:], "%R%", r)))
+				} else if t != "~fresh" {
 					guard = append(guard, not(eq(r, t)))
 				}
 			}
@@ -1128,6 +1156,23 @@ func (fc *FuncCtx) runLoop(node ast.Node, st *State, implicit func(h *State) []s
 		return back, exit
 	}
 	d := fc.modifiedBy(st, iter)
+	if ls != nil && ls.Frame == "none" {
+		// no automatic frame for Go maps: the contents of every map of a type the body writes are unknown at
+		// the loop head for ALL map objects (sound, weaker than the default, which demands that the body only
+		// writes maps allocated inside the loop); what must survive is carried by the invariants alone
+		for k := range d.heap {
+			if strings.HasSuffix(k, ".dom") || strings.HasSuffix(k, ".val") {
+				d.heap[k] = map[string]bool{"*": true}
+			}
+		}
+	}
+	if ls != nil && ls.Frame == "open" {
+		// no automatic frame at all: every heap component the body writes is unknown at the loop head for
+		// all objects; only the invariants survive (used for loops whose function may modify all(...) anyway)
+		for k := range d.heap {
+			d.heap[k] = map[string]bool{"*": true}
+		}
+	}
 	checkInvs := func(s *State, kind string) {
 		if ls == nil {
 			return
@@ -1153,7 +1198,13 @@ func (fc *FuncCtx) runLoop(node ast.Node, st *State, implicit func(h *State) []s
 	fc.frameBound = ""
 	guard := &loopGuard{ord: ord, allocHead: frameBound, keys: map[string]map[string]bool{}, pos: pos}
 	for k, targets := range d.heap {
-		if targets["~fresh"] && !targets["*"] {
+		hasPred := false
+		for t := range targets {
+			if strings.HasPrefix(t, "?") {
+				hasPred = true
+			}
+		}
+		if (targets["~fresh"] || hasPred) && !targets["*"] {
 			guard.keys[k] = targets
 		}
 	}
@@ -1412,13 +1463,43 @@ func (fc *FuncCtx) storeHook(st *State, key, ref string) {
 		}
 		alts := []string{"(>= " + ref + " " + g.allocHead + ")", eq(ref, "0")}
 		for _, t := range sortedStrings(targets) {
-			if t != "~fresh" && t != "*" {
+			if strings.HasPrefix(t, "?") {
+				alts = append(alts, strings.ReplaceAll(t[1:], "%R%", ref))
+			} else if t != "~fresh" && t != "*" {
 				alts = append(alts, eq(ref, t))
 			}
 		}
 		goal := or(alts...)
 		fc.oblige(st, "loop-frame", fmt.Sprintf("loop%d:%s", g.ord, key), g.pos, goal, nil,
 			"a store to "+key+" inside the loop must target an object allocated since the loop was entered (or a loop-invariant location)")
+	}
+}
+
+// predStoreHook: a callee inside a loop may modify every object satisfying a predicate; each such object
+// must be one the loop head did not promise to keep (allocated in the loop, a stable target, or inside a
+// loop-invariant predicate target).  Identical predicate terms need no obligation.
+func (fc *FuncCtx) predStoreHook(st *State, key, pt string) {
+	if fc.e.dry > 0 {
+		return
+	}
+	for _, g := range fc.loopGuards {
+		targets, ok := g.keys[key]
+		if !ok || targets[pt] {
+			continue
+		}
+		fc.e.nfresh++
+		r := smtSym(fmt.Sprintf("r!b%d", fc.e.nfresh))
+		alts := []string{"(>= " + r + " " + g.allocHead + ")", eq(r, "0")}
+		for _, t := range sortedStrings(targets) {
+			if strings.HasPrefix(t, "?") {
+				alts = append(alts, strings.ReplaceAll(t[1:], "%R%", r))
+			} else if t != "~fresh" && t != "*" {
+				alts = append(alts, eq(r, t))
+			}
+		}
+		goal := "(forall ((" + r + " Int)) (=> " + strings.ReplaceAll(pt[1:], "%R%", r) + " " + or(alts...) + "))"
+		fc.oblige(st, "loop-frame", fmt.Sprintf("loop%d:%s:maps", g.ord, key), g.pos, goal, nil,
+			"every object a callee may modify inside the loop must be allocated since the loop was entered or be a loop-invariant target")
 	}
 }
 
